@@ -158,3 +158,30 @@ End GEO.
 Print Assumptions GEO.C07_walk_radius_is_code.
 Print Assumptions GEO.C07_walk_radius_monotone.
 Print Assumptions GEO.C07_osrm_prefilter_is_code.
+
+(* tie to the source, the RENDERER of the reason: the `switch (noRoutingReason)` of the two noRoutingFoundResponse
+   functions (result_to_v2.cpp, result_to_v2_accessibility.cpp) is read AS IT IS NOW by tools/gen_render.py (gen/Render.v:
+   one (enumerator, string) row per case label in source order, fall-through resolved, the strings looked up in
+   result_constants.hpp, and the default) - the string sent under "reason" is the text of the model's reason *)
+Require Coq.Strings.String.
+Require TrV.Http TrV.RenderJson TrV.gen.Render.
+From TrV Require Proofs.RenderTie.
+Module RJ.
+  Import TrV.Http Coq.Strings.String TrV.RenderJson TrV.Proofs.RenderTie.
+  Theorem C07_json_reason_strings_are_code : forall r,
+    reason_text_string (route_reason_text r) =
+      reason_string GR.gen_render_noroute_reasons GR.gen_render_noroute_reason_default r /\
+    reason_text_string (access_reason_text r) =
+      reason_string GR.gen_render_access_noroute_reasons GR.gen_render_access_noroute_reason_default r.
+  Proof. intro r. exact (conj (route_reason_tie r) (access_reason_tie r)). Qed.
+  Theorem C07_json_no_routing_bodies_are_code : forall reason q,
+    json_of_body false (HNoRouting (route_reason_text reason) q) =
+      Some (render_noroute GR.gen_render_route_query GR.gen_render_noroute_top GR.gen_render_noroute_reasons
+                           GR.gen_render_noroute_reason_default reason q) /\
+    json_of_body true (HNoRouting (access_reason_text reason) q) =
+      Some (render_noroute GR.gen_render_access_query GR.gen_render_access_noroute_top GR.gen_render_access_noroute_reasons
+                           GR.gen_render_access_noroute_reason_default reason q).
+  Proof. intros reason q. exact (conj (noroute_body_tie reason q) (access_noroute_body_tie reason q)). Qed.
+End RJ.
+Print Assumptions RJ.C07_json_reason_strings_are_code.
+Print Assumptions RJ.C07_json_no_routing_bodies_are_code.
